@@ -23,7 +23,7 @@ def base_cases(thorough):
   for i, c in enumerate(families.c04_cases(False)):
     if i % (60 if not thorough else 15) == 0: out.append(c)
   for c in families.c08_cases(False):
-    if sum(c.info['assign']) % (3 if not thorough else 1) == 0: out.append(c)
+    if sum(c.info['assign']) % (3 if not thorough else 1) == 0 or c.info['shape'] in ('two_with_chains_under_ground', 'grouped_constant', 'wide_named_columns'): out.append(c)
   for c in families.c03_cases(False):
     if c.info['depth'] in (2, 21): out.append(c)
   # record fields named like keys of the compiler's own syntax tree
@@ -32,6 +32,11 @@ def base_cases(thorough):
   for n in ('variable', 'literal', 'call', 'record', 'expression', 'type', 'the_string', 'subscript', 'field_value', 'predicate_name', 'var_name', 'combine', 'value', 'field', 'number'):
     out.append(semcheck.Case('FIELDNAMES', Program([R('T', ('fld', r_, n), body=(Lit('B', x), Eq(r_, ('rec', ((n, x),))))), R('U', ('rec', ((n, x), ('k', x))), body=(Lit('B', x),)),
                                                     R('W', V('y'), body=(Lit('U', r_), Eq(V('y'), ('fld', r_, n))))]), ['T', 'W'], info=dict(field=n)))
+  # chains of flags: each default refers to a flag defined before it; the last one is used inside a string and through FlagValue
+  from ..lang import Ann, Call, S as Str_
+  flags3 = [Ann('@DefineFlag("env", "prod");'), Ann('@DefineFlag("dataset", "${env}_data");'), Ann('@DefineFlag("table", "${dataset}.events");'), Ann('@DefineFlag("full", "db.${table}");')]
+  out.append(semcheck.Case('FLAGS', Program(flags3 + [R('T', x, Str_('${full}'), Call('FlagValue', Str_('table')), body=(Lit('B', x),))]), ['T'], info=dict(field='flags')))
+  out.append(semcheck.Case('FLAGS', Program(flags3[::-1] + [R('T', x, Str_('x ${table} y ${env}'), body=(Lit('B', x),))]), ['T'], info=dict(field='flags')))
   return out
 
 
@@ -89,6 +94,8 @@ def work(task):
           if c.family == 'FIELDNAMES' and c.info['field'] == 'variable' and out[1] == 'TypeError' and dialect in ('psql', 'duckdb', 'clickhouse'): sig = 'F45-record-field-named-variable/%s' % dialect
           bad(sig, 'compilation failed with %s: %s' % (out[1], out[2][:160]), text, pred); continue
         ok = True
+        if c.family == 'FLAGS' and '${' in out[4]:
+          bad('flag-placeholder-left-in-sql/%s' % dialect, 'every flag is defined, yet a ${...} placeholder survives in the emitted SQL', text, pred, out[4])
         for stmt in [out[1]] + out[2] + [out[3]]:
           if stmt and stmt.strip():
             r = check_sql(dialect, stmt, stats, bad, text, pred)
